@@ -41,6 +41,7 @@ type fullCfg struct {
 	Partial    bool   `json:"partial_failures"`
 	Wait       bool   `json:"wait_for_result"`
 	NoQueue    bool   `json:"no_queue"`
+	Shape      string `json:"error_shape"` // plain | wrapped (%w) | joined with a plain error
 }
 
 type fullReq struct {
@@ -134,6 +135,7 @@ func fullConfig(tp *simkit.Tape, prop string) fullCfg {
 	c.Faults = tp.Chance(2, 3) || prop == "C05"
 	c.Partial = c.Faults && c.Signal != "metrics" && c.Signal != "profiles" && tp.Chance(1, 2)
 	c.Wait = !c.Persistent && tp.Chance(1, 4)
+	c.Shape = []string{"plain", "wrapped", "joined"}[tp.Weighted(2, 1, 1)]
 	if !c.Persistent && c.Batch != "queue" && prop != "C05" && tp.Chance(1, 6) {
 		// sending_queue disabled: the export (with its retries, or the legacy batcher) runs on the caller's goroutine
 		c.NoQueue = true
@@ -290,6 +292,17 @@ func (s *fullSim) cleanup() {
 	}
 }
 
+// dress gives a backend error the run's shape; errors.Is / errors.As see through both.
+func (s *fullSim) dress(err error) error {
+	switch s.cfg.Shape {
+	case "wrapped":
+		return fmt.Errorf("backend client: %w", err)
+	case "joined":
+		return errors.Join(errors.New("sim backend: a second, unclassified complaint"), err)
+	}
+	return err
+}
+
 func (s *fullSim) answerChoices(ch *[]simkit.Choice) {
 	r := s.r
 	for _, id := range s.be.gate.Parked() {
@@ -301,12 +314,12 @@ func (s *fullSim) answerChoices(ch *[]simkit.Choice) {
 		*ch = append(*ch, simkit.Choice{Name: "transient:" + id, W: 1, Fire: func() {
 			r.Count("fault.backend_transient")
 			s.anyFailure = true
-			s.be.answer(id, errTransient)
+			s.be.answer(id, s.dress(errTransient))
 		}})
 		*ch = append(*ch, simkit.Choice{Name: "permanent:" + id, W: 1, Fire: func() {
 			r.Count("fault.backend_permanent")
 			s.anyFailure = true
-			s.be.answer(id, errPermanent)
+			s.be.answer(id, s.dress(errPermanent))
 		}})
 		if s.cfg.Partial {
 			*ch = append(*ch, simkit.Choice{Name: "partial:" + id, W: 1, Fire: func() {
